@@ -32,7 +32,7 @@ from pyparsing import ParseResults
 from pyparsing import CharsNotIn, Empty, Located, col, lineno
 from pyparsing import Word, alphanums, alphas, ZeroOrMore, OneOrMore, Keyword
 from pyparsing import Suppress, Group, Optional, Forward
-from pyparsing import one_of, rest_of_line
+from pyparsing import one_of, rest_of_line, Regex
 
 
 class CustomParseResults:
@@ -303,9 +303,10 @@ class PDDLGrammar:
             + Suppress(")")
         )
 
+        number_atom = Group(Located(Empty() + Regex(r"[-+]?[0-9]+(\.[0-9]*)?")))
         metric = (Keyword("minimize") | Keyword("maximize")).set_results_name(
             "optimization"
-        ) + (name | nested_expr()).set_results_name("metric")
+        ) + (name | number_atom | nested_expr()).set_results_name("metric")
 
         problem = (
             Suppress("(")
